@@ -176,6 +176,7 @@ func (o c12Offer) String() string {
 
 type c12Origin struct {
 	offer   c12Offer
+	host    string // the loopback address it listens on ("" = 127.0.0.1)
 	port    int
 	tcpLn   net.Listener
 	srv     *http.Server
@@ -278,7 +279,11 @@ func (o *c12Origin) seenFor(path string) []c12Seen {
 }
 
 func (o *c12Origin) url(scheme, path string) string {
-	return fmt.Sprintf("%s://127.0.0.1:%d%s", scheme, o.port, path)
+	host := o.host
+	if host == "" {
+		host = "127.0.0.1"
+	}
+	return fmt.Sprintf("%s://%s:%d%s", scheme, host, o.port, path)
 }
 
 func (o *c12Origin) close() {
@@ -299,17 +304,24 @@ func (o *c12Origin) close() {
 // c12StartOrigin starts an origin. TCP and UDP share one port number; the UDP socket is
 // bound even when no HTTP/3 is offered is NOT done: an origin without h3 has no UDP socket.
 func c12StartOrigin(offer c12Offer) (*c12Origin, error) {
+	return c12StartOriginAt(offer, "127.0.0.1", 0, c12GetPKI().server)
+}
+
+// c12StartOriginAt: an origin on a given loopback address / port (0 = any) presenting leaf.
+// Round 7: two origins on the SAME port of different loopback addresses (127.0.0.1:P and
+// 127.0.0.2:P) whose certificates name both addresses.
+func c12StartOriginAt(offer c12Offer, host string, port int, leaf tls.Certificate) (*c12Origin, error) {
 	pki := c12GetPKI()
 	var lastErr error
 	for attempt := 0; attempt < 20; attempt++ {
-		o := &c12Origin{offer: offer}
-		ln, err := net.Listen("tcp", "127.0.0.1:0")
+		o := &c12Origin{offer: offer, host: host}
+		ln, err := net.Listen("tcp", fmt.Sprintf("%s:%d", host, port))
 		if err != nil {
 			return nil, err
 		}
 		o.port = ln.Addr().(*net.TCPAddr).Port
 		if offer.h3 {
-			pc, err := net.ListenPacket("udp", fmt.Sprintf("127.0.0.1:%d", o.port))
+			pc, err := net.ListenPacket("udp", fmt.Sprintf("%s:%d", host, o.port))
 			if err != nil {
 				ln.Close()
 				lastErr = err
@@ -319,7 +331,7 @@ func c12StartOrigin(offer c12Offer) (*c12Origin, error) {
 		}
 		o.tcpLn = c12CountLn{ln, o}
 		baseTLS := func() *tls.Config {
-			c := &tls.Config{Certificates: []tls.Certificate{pki.server}, MinVersion: tls.VersionTLS12}
+			c := &tls.Config{Certificates: []tls.Certificate{leaf}, MinVersion: tls.VersionTLS12}
 			if offer.clientAuth {
 				c.ClientAuth = tls.RequireAndVerifyClientCert
 				c.ClientCAs = pki.cas[0].pool()
